@@ -613,8 +613,9 @@ func (s *socket) Close(discard bool) {
 	if length := s.pending.Load(); length > 0 {
 		socket_log.Debug("there are %d remaining packets in the buffer, waiting for the 'drain' event", length)
 		var onDrain events.Listener
+		var proceeded atomic.Bool
 		onDrain = func(...any) {
-			if s.pending.Load() > 0 {
+			if s.pending.Load() > 0 || !proceeded.CompareAndSwap(false, true) {
 				return
 			}
 			s.RemoveListener("drain", onDrain)
@@ -622,6 +623,9 @@ func (s *socket) Close(discard bool) {
 			s.closeTransport(discard)
 		}
 		s.On("drain", onDrain)
+		// the drain this waits for may have been emitted (or be under way: Emit calls the listeners it
+		// found when it started) since the counter was read above: look again, or wait for ever
+		onDrain()
 		return
 	}
 
